@@ -59,7 +59,11 @@ def file_level(ctx, counts):
                     vlo, vhi = float(th.celsius_to_mv(np.array([float(max(lo, -150))]))[0]), float(th.celsius_to_mv(np.array([float(min(hi, 900))]))[0])
                     xs = np.array([1000.0 * rnd.uniform(vlo, vhi) for _ in range(6)])
                 raw = xs.astype(dt)
-                expect = sc.ThermocoupleScaling(code, direction, 0xFFFFFFFF).scale(raw.astype(np.float64))
+                if dt is not np.int16 and rnd.random() < 0.5:
+                    # an open thermocouple / dropped sample: NaN among valid samples; every valid sample must convert as it does alone
+                    raw = raw.copy()
+                    raw[rnd.randrange(len(raw))] = np.nan
+                expect = np.array([float(sc.ThermocoupleScaling(code, direction, 0xFFFFFFFF).scale(np.array([float(v)]))[0]) for v in raw.astype(np.float64)])
                 props = {"NI_Number_Of_Scales": np.uint32(1), "NI_Scale[0]_Scale_Type": "Thermocouple", "NI_Scale[0]_Thermocouple_Thermocouple_Type": np.uint32(code),
                          "NI_Scale[0]_Thermocouple_Scaling_Direction": np.uint32(direction), "NI_Scale[0]_Thermocouple_Input_Source": np.uint32(0xFFFFFFFF),
                          "NI_Scaling_Status": "unscaled"}
@@ -84,7 +88,12 @@ def file_level(ctx, counts):
                     out.append(Violation("reading a thermocouple-scaled channel (type %s, direction %d, %s) modified its raw data" % (name, direction, np.dtype(dt)), rp))
                 for label, got, exp in reads:
                     got = np.asarray(got, dtype=np.float64)
-                    if got.shape != np.asarray(exp).shape or not np.all(np.abs(got - exp) <= 1e-9 * np.maximum(1.0, np.abs(exp))):
+                    exp = np.asarray(exp, dtype=np.float64)
+                    ok = got.shape == exp.shape and np.array_equal(np.isnan(got), np.isnan(exp))
+                    if ok:
+                        fin = ~np.isnan(exp)
+                        ok = bool(np.all(np.abs(got[fin] - exp[fin]) <= 1e-9 * np.maximum(1.0, np.abs(exp[fin]))))
+                    if not ok:
                         out.append(Violation("thermocouple type %s direction %d on %s raw data: %s = %s, direct conversion of the same numbers gives %s" % (
                             name, direction, np.dtype(dt), label, list(got)[:3], list(exp)[:3]), rp))
                         break
